@@ -77,6 +77,10 @@ type jsonAmmo struct {
 const EOFLayouts = 4
 
 func applyEOF(kind string, content string, eof int) string {
+	if content == "" && (kind == "uri" || kind == "uripost") && eof%EOFLayouts == 1 {
+		// a file without entries: header lines only
+		return "[X-Common: 1]\n[Host: h]\n"
+	}
 	switch kind {
 	case "scenhttp", "scengrpc":
 		return content
@@ -142,7 +146,7 @@ func FileFor(kind string, es []Entry) (name string, content string) {
 			fmt.Fprintf(&b, "{\"host\":\"h\",\"method\":\"POST\",\"uri\":\"/e%d\",\"tag\":\"%s\",\"body\":\"jb%d\"}", e.Idx, e.Tag, e.Idx)
 		}
 		b.WriteString("]\n")
-		return "/ammo.json", b.String()
+		return "/ammo.json", b.String() // zero entries: the empty array "[]"
 	case "grpcjson":
 		for _, e := range es {
 			fmt.Fprintf(&b, "{\"tag\":\"%s\",\"call\":\"svc.M%d\",\"payload\":{\"i\":%d}}\n", e.Tag, e.Idx, e.Idx)
@@ -158,6 +162,9 @@ func FileFor(kind string, es []Entry) (name string, content string) {
 		for _, e := range es {
 			fmt.Fprintf(&b, "  - name: r%d\n    method: GET\n    uri: /e%d\n    tag: %s\n", e.Idx, e.Idx, e.Tag)
 		}
+		if len(es) == 0 {
+			return "/scen-http.yaml", "requests: []\nscenarios: []\n"
+		}
 		b.WriteString("scenarios:\n")
 		for _, e := range es {
 			fmt.Fprintf(&b, "  - name: s%d\n    weight: 1\n    min_waiting_time: 0\n    requests:\n      - r%d\n", e.Idx, e.Idx)
@@ -167,6 +174,9 @@ func FileFor(kind string, es []Entry) (name string, content string) {
 		b.WriteString("calls:\n")
 		for _, e := range es {
 			fmt.Fprintf(&b, "  - name: c%d\n    tag: %s\n    call: svc.M%d\n    payload: '{}'\n", e.Idx, e.Tag, e.Idx)
+		}
+		if len(es) == 0 {
+			return "/scen-grpc.yaml", "calls: []\nscenarios: []\n"
 		}
 		b.WriteString("scenarios:\n")
 		for _, e := range es {
